@@ -333,7 +333,7 @@ func (m *chainModel) cliqueBuildOp(op c29Op, p *node) (*types.Header, string) {
 			h.Coinbase, h.Nonce = ecommon.Address{}, nonceDrop
 		}
 		resign(k)
-	case "recent":
+	case "recent", "recent-other-coinbase": // the beneficiary is a vote target on Clique: a plain recent-signer attempt
 		_, rec := m.cliqueAllowed(p)
 		if len(rec) == 0 {
 			return h, "mut:recent:none-available"
